@@ -248,6 +248,16 @@ Theorem C10_complete : forall seal open, ideal_aead seal open ->
 Proof. exact c10_complete. Qed.
 Print Assumptions C10_complete.
 
+(* the oracle of the encoder kinds (C10_encode_src_ok) judges the output of
+   NewRequestPacket / NewResponsePacket + EncodePacket by DecodePacket +
+   ProcessRequest under the same key, for every size the builders choose: that is
+   C10_complete (the packet always fits) together with this: what the client
+   accepts passes the authentication step alone *)
+Theorem C10_client_accept_authentic : forall open b key id r,
+  client_accept open b key id = Ok r -> server_accept open b key = Ok r.
+Proof. exact client_accept_authentic. Qed.
+Print Assumptions C10_client_accept_authentic.
+
 (* the same for ANY identifier (>= 32 bytes), cookies, placeholder bodies and
    plaintext that EncodePacket is given, as long as the packet fits into 1024
    bytes (enc_len = 48 + the field lengths, see Proofs/NtsAuthComplete.v) and the
